@@ -26,6 +26,8 @@ class T:
 INT, REAL, BOOL, STR = T('int'), T('real'), T('bool'), T('str')
 NONE = T('none')
 FP = T('fp')
+VAL = T('val')               # an opaque Python value (only equality and formatting are used)
+FILE = T('file')
 PYVAL = T('pyval')           # a dynamically typed Python value (used where the code tests types with isinstance: C09)                 # IEEE-754 binary64 (used only where rounding / NaN behaviour is the property)
 TRANS = T('trans')            # a transition tuple (label|probability, target): see DESIGN 2.3 / engine docstring
 
@@ -62,6 +64,20 @@ def DICT(k, v):
     return T('dict', k, v)
 
 
+RECS = {}        # record name -> [(key, T)]  (a dict with a fixed set of string keys)
+
+
+def REC(name, fields=None):
+    if fields is not None:
+        RECS[name] = list(fields)
+    return T('rec', name)
+
+
+def ODICT(v):
+    """insertion-ordered dict with string keys: (keys in order, presence, value)"""
+    return T('odict', v)
+
+
 _sorts = {}
 _acc = {}     # type -> constructor / accessor functions (names are unique per datatype)
 
@@ -94,6 +110,11 @@ def sort(t):
     elif k == 'fp':
         from z3 import Float64
         r = Float64()
+    elif k == 'val':
+        from z3 import DeclareSort
+        r = DeclareSort('Val')
+    elif k == 'file':
+        r = IntSort()
     elif k == 'pyval':
         d = Datatype('PyVal')
         d.declare('pI', ('iv', IntSort()))
@@ -103,6 +124,7 @@ def sort(t):
         d.declare('pN')
         d.declare('pT', ('tlen', IntSort()), ('t0', d), ('t1', d))     # a tuple: its length and its first two slots
         d.declare('pL', ('lref', IntSort()))                          # a list object (reference into the PyVal list heap)
+        d.declare('pD', ('dref', IntSort()))                          # a dict object
         d.declare('pO', ('oid', IntSort()))                           # anything else
         r = d.create()
     elif k == 'trans':
@@ -132,6 +154,21 @@ def sort(t):
         _acc[t] = dict(mk=getattr(r, f'mkOpt{n}'), isnone=getattr(r, f'isnone{n}'), val=getattr(r, f'val{n}'))
     elif k == 'arr':
         r = ArraySort(sort(t.a[0]), sort(t.a[1]))
+    elif k == 'rec':
+        n = next(_names)
+        flds = RECS[t.a[0]]
+        d = Datatype(f'Rec{n}')
+        d.declare(f'mkRec{n}', *[(f'r{n}_{i}', sort(ft)) for i, (_, ft) in enumerate(flds)])
+        r = d.create()
+        _acc[t] = dict(mk=getattr(r, f'mkRec{n}'), **{f'k_{key}': getattr(r, f'r{n}_{i}') for i, (key, _) in enumerate(flds)})
+    elif k == 'odict':
+        n = next(_names)
+        vs = sort(t.a[0])
+        ls = sort(LIST(STR))
+        d = Datatype(f'ODict{n}')
+        d.declare(f'mkODict{n}', (f'okeys{n}', ls), (f'ohas{n}', ArraySort(StringSort(), BoolSort())), (f'oval{n}', ArraySort(StringSort(), vs)))
+        r = d.create()
+        _acc[t] = dict(mk=getattr(r, f'mkODict{n}'), keys=getattr(r, f'okeys{n}'), has=getattr(r, f'ohas{n}'), val=getattr(r, f'oval{n}'))
     elif k == 'dict':
         ks, vs = sort(t.a[0]), sort(t.a[1])
         n = next(_names)
@@ -158,6 +195,10 @@ def default(t):
     if k == 'fp':
         from z3 import FPVal, Float64
         return FPVal(0.0, Float64())
+    if k == 'val':
+        return Const('val_default', sort(t))
+    if k == 'file':
+        return IntVal(0)
     if k == 'pyval':
         return sort(t).pN
     if k == 'trans':
@@ -170,6 +211,10 @@ def default(t):
         return S(t).mk(BoolVal(True), default(t.a[0]))
     if k == 'arr':
         return K(sort(t.a[0]), default(t.a[1]))
+    if k == 'rec':
+        return S(t).mk(*[default(ft) for _, ft in RECS[t.a[0]]])
+    if k == 'odict':
+        return S(t).mk(empty(LIST(STR)), K(StringSort(), BoolVal(False)), K(StringSort(), default(t.a[0])))
     if k == 'dict':
         return S(t).mk(K(sort(t.a[0]), BoolVal(False)), K(sort(t.a[0]), default(t.a[1])))
     raise KeyError(t)
